@@ -350,7 +350,8 @@ fn deps_case(dialect: &str, shadow: bool) -> Option<Value> {
     if shadow { std::fs::write(d1.join("inc.clib"), "((defconstant FIRST 1))").ok()?; }
     let src = format!("(mod (X) (include {}) (include inc.clib) (include *starred*.clib) (embed-file blob bin blob.bin) (embed-file hx hex data.hex) (+ X 1))", dialect);
     let opts: Rc<dyn CompilerOpts> = Rc::new(DefaultCompilerOpts::new("main.clsp"));
-    let opts = opts.set_search_paths(&[d1.to_string_lossy().to_string(), d2.to_string_lossy().to_string()]);
+    // the first directory is named again at the end: first match still decides
+    let opts = opts.set_search_paths(&[d1.to_string_lossy().to_string(), d2.to_string_lossy().to_string(), d1.to_string_lossy().to_string()]);
     let got = gather_dependencies(opts, "main.clsp", &src);
     let res = match got {
         Err(e) => Some(hit(json!({"source": src, "shadow": shadow}), "a dependency list".into(), format!("error {:?}", e.1), "gather_dependencies on a temp directory tree")),
@@ -499,7 +500,7 @@ fn chk_no_panic_bytes(data: &[u8]) -> Option<Value> {
 
 
 // ---- C14 / C18: degenerate include files (each case runs in a child process: a stack overflow cannot be caught in-process)
-const INCLUDE_KINDS: &[&str] = &["empty", "spaces", "comment", "atom", "nil_form", "two_forms", "string", "diamond", "missing", "dir", "cycle1", "cycle2"];
+const INCLUDE_KINDS: &[&str] = &["empty", "spaces", "comment", "atom", "nil_form", "two_forms", "string", "diamond", "missing", "dir", "cycle1", "cycle2", "embed_sexp_empty", "embed_sexp_comment", "embed_sexp_two", "embed_hex_junk", "embed_hex_odd", "embed_bin_empty", "embed_missing"];
 const INCLUDE_MODES: &[&str] = &["cl21", "cl23", "classic"];
 pub fn include_child(kind: &str, mode: &str) -> i32 {
     use chialisp::classic::clvm_tools::clvmc::compile_clvm_text_maybe_opt;
@@ -525,10 +526,20 @@ pub fn include_child(kind: &str, mode: &str) -> i32 {
         "dir" => { let _ = std::fs::create_dir_all(base.join("inc.clib")); }
         "cycle1" => w("inc.clib", "((include inc.clib))"),
         "cycle2" => { w("inc.clib", "((include other.clib))"); w("other.clib", "((include inc.clib))"); }
+        "embed_sexp_empty" => w("data.bin", ""),
+        "embed_sexp_comment" => w("data.bin", "; no form\n  "),
+        "embed_sexp_two" => w("data.bin", "(1 2) (3 4)"),
+        "embed_hex_junk" => w("data.bin", "zz not hex"),
+        "embed_hex_odd" => w("data.bin", "ff018"),
+        "embed_bin_empty" => w("data.bin", ""),
+        "embed_missing" => {}
         _ => return 9,
     }
     let sigil = match mode { "cl21" => "(include *standard-cl-21*) ", "cl23" => "(include *standard-cl-23*) ", _ => "" };
-    let src = format!("(mod (X) {}(include inc.clib) (+ X 1))", sigil);
+    let src = if kind.starts_with("embed_") {
+        let how = if kind.contains("sexp") { "sexp" } else if kind.contains("hex") { "hex" } else { "bin" };
+        format!("(mod (X) {}(embed-file thing {} data.bin) (c X thing))", sigil, how)
+    } else { format!("(mod (X) {}(include inc.clib) (+ X 1))", sigil) };
     let dirs = vec![base.to_string_lossy().to_string()];
     let r = catch_unwind(move || {
         let mut a = clvmr::Allocator::new();
@@ -626,6 +637,55 @@ fn chk_compile_no_panic(src: &str) -> Option<Value> {
         Err(_) => Some(hit(json!({"program": src}), "a result or an error".into(), "panic".into(), "compile_clvm_text_maybe_opt on a token-level mutation of a valid program")),
         Ok(_) => None,
     }
+}
+
+// ---- C19 (file-to-file compilation): the output path holds its previous state or the complete new contents, also when the compile fails
+fn chk_compile_clvm_files() -> Option<Value> {
+    use chialisp::classic::clvm_tools::clvmc::compile_clvm;
+    use std::collections::HashMap;
+    let base = std::env::temp_dir().join(format!("verif_replay_clvmc_{}", std::process::id()));
+    let _ = std::fs::remove_dir_all(&base);
+    if std::fs::create_dir_all(&base).is_err() { return None; }
+    let p = |n: &str| base.join(n).to_string_lossy().to_string();
+    let mut problem: Option<(String, String)> = None;
+    // 1. a source that does not compile, output absent: the output stays absent
+    let _ = std::fs::write(p("bad.clsp"), "(mod (X) (include *standard-cl-23*) (+ X undefined_name))");
+    let r = catch_unwind(|| { let mut s = HashMap::new(); compile_clvm(&p("bad.clsp"), &p("bad.hex"), &[], &mut s) });
+    if std::path::Path::new(&p("bad.hex")).exists() { problem = Some(("failing compile to an absent output path".into(), format!("the output path now exists with {:?} (compile returned {:?})", std::fs::read_to_string(p("bad.hex")).ok(), r.ok()))); }
+    // 2. a source that does not compile, output present: the output keeps its contents
+    if problem.is_none() {
+        let _ = std::fs::write(p("bad2.clsp"), "(mod (X) (include *standard-cl-23*) (+ X undefined_name))");
+        let _ = std::fs::write(p("bad2.hex"), "ff0180\n");
+        // make the source newer than the output
+        std::thread::sleep(std::time::Duration::from_millis(30));
+        let _ = std::fs::write(p("bad2.clsp"), "(mod (X) (include *standard-cl-23*) (+ X undefined_name2))");
+        let _ = catch_unwind(|| { let mut s = HashMap::new(); compile_clvm(&p("bad2.clsp"), &p("bad2.hex"), &[], &mut s) });
+        let now = std::fs::read_to_string(p("bad2.hex")).ok();
+        if now.as_deref() != Some("ff0180\n") { problem = Some(("failing compile over an existing output".into(), format!("the output now holds {:?}", now))); }
+    }
+    // 3. a good compile to an absent path while a reader polls: the reader sees the path absent or complete
+    if problem.is_none() {
+        let mut body = String::from("(mod (X) (include *standard-cl-21*) (list");
+        for i in 0..400 { body.push_str(&format!(" (+ X {})", 1000000 + i)); }
+        body.push_str("))");
+        let _ = std::fs::write(p("good.clsp"), &body);
+        let out = p("good.hex");
+        let stop = std::sync::Arc::new(std::sync::atomic::AtomicBool::new(false));
+        let seen = std::sync::Arc::new(std::sync::Mutex::new(Vec::<String>::new()));
+        let (stop2, seen2, out2) = (stop.clone(), seen.clone(), out.clone());
+        let h = std::thread::spawn(move || { while !stop2.load(std::sync::atomic::Ordering::Relaxed) { if let Ok(t) = std::fs::read_to_string(&out2) { let mut g = seen2.lock().unwrap(); if g.last() != Some(&t) { g.push(t); } } } });
+        let r = catch_unwind(|| { let mut s = HashMap::new(); compile_clvm(&p("good.clsp"), &p("good.hex"), &[], &mut s) });
+        stop.store(true, std::sync::atomic::Ordering::Relaxed);
+        let _ = h.join();
+        let fin = std::fs::read_to_string(&out).ok();
+        let observed: Vec<String> = { let g = seen.lock().unwrap(); g.clone() };
+        match (&r, &fin) {
+            (Ok(Ok(_)), Some(f)) => { if let Some(b) = observed.iter().find(|t| *t != f) { problem = Some(("good compile to an absent output path with a polling reader".into(), format!("the reader saw {} bytes that are not the complete output ({} bytes)", b.len(), f.len()))); } }
+            _ => { problem = Some(("good compile".into(), format!("compile_clvm returned {:?}, output {:?}", r.as_ref().map(|x| x.is_ok()).unwrap_or(false), fin.map(|f| f.len())))); }
+        }
+    }
+    let _ = std::fs::remove_dir_all(&base);
+    problem.map(|(what, o)| hit(json!({"scenario": what}), "the output path holds its previous state or the complete new contents".into(), o, "clvmc::compile_clvm on scratch files (failing compile to absent / present output; good compile with a polling reader)"))
 }
 
 // ---- C11: library entry point vs command-line tool path compile the same program
@@ -1230,6 +1290,13 @@ fn compile_bytes_and_symbols(src: &str) -> Result<(Vec<u8>, Vec<(String, String)
 }
 fn determinism_programs() -> Vec<String> {
     let mut v: Vec<String> = vec![];
+    // programs that define a macro / constant / function of the same name differently: nothing may leak from one compilation into the next
+    for d in ["*standard-cl-23*", "*strict-cl-21*", "*standard-cl-21*"] {
+        for k in [2, 3] {
+            v.push(format!("(mod (X) (include {}) (defmac scale (N) (* {} N)) (+ X (scale 7)))", d, k));
+            v.push(format!("(mod (X) (include {}) (defmacro twice (N) (qq (* {} (unquote N)))) (defconstant KK {}) (defun-inline hh (A) (+ A {})) (+ (twice X) KK (hh X)))", d, k, k, k));
+        }
+    }
     for (b, _, _) in meaning_cases() { for d in ["*standard-cl-21*", "*standard-cl-22*", "*standard-cl-23*"] { v.push(with_dialect(b, d)); } }
     for d in ["*standard-cl-21*", "*standard-cl-22*", "*standard-cl-23*"] {
         v.push(with_dialect("(mod (A B) (defun G (X) (lambda ((& X) Z) (+ X Z))) (a (G A) (list B)))", d));
@@ -1251,11 +1318,12 @@ fn chk_determinism() -> Option<Value> {
         if again.is_err() && first[i].is_err() { continue; }
         if again != first[i] { return Some(hit(json!({"source": p, "history": "compiled a second time after other compilations (incl. a failed one)"}), format!("first: {}", first[i].as_ref().map(|x| x.0.iter().map(|b| format!("{:02x}", b)).collect::<String>()).unwrap_or_default()), format!("again: {}", again.as_ref().map(|x| x.0.iter().map(|b| format!("{:02x}", b)).collect::<String>()).unwrap_or_default()), "compile_clvm_text twice in one process: bytes or user-visible symbols differ")); }
     }
-    let progs2 = progs.clone();
-    let threaded: Vec<Result<(Vec<u8>, Vec<(String, String)>), String>> = std::thread::spawn(move || progs2.iter().map(|p| catch_unwind({ let p = p.clone(); move || compile_bytes_and_symbols(&p) }).unwrap_or(Err("panic".into()))).collect()).join().ok()?;
-    for (i, p) in progs.iter().enumerate() {
-        if threaded[i].is_err() && first[i].is_err() { continue; }
-        if threaded[i] != first[i] { return Some(hit(json!({"source": p, "history": "compiled on a second thread"}), format!("{:?}", first[i].as_ref().map(|x| (x.0.len(), x.1.len()))), format!("{:?}", threaded[i].as_ref().map(|x| (x.0.len(), x.1.len()))), "compile_clvm_text on another thread: bytes or user-visible symbols differ")); }
+    // every program on a thread of its own (no per-thread history at all), in reverse order
+    for (i, p) in progs.iter().enumerate().rev() {
+        let p2 = p.clone();
+        let alone = std::thread::spawn(move || catch_unwind(move || compile_bytes_and_symbols(&p2)).unwrap_or(Err("panic".into()))).join().unwrap_or(Err("thread died".into()));
+        if alone.is_err() && first[i].is_err() { continue; }
+        if alone != first[i] { return Some(hit(json!({"source": p, "history": "compiled on a fresh thread of its own vs after the other programs on the main thread"}), format!("{:?}", first[i].as_ref().map(|x| (x.0.len(), x.1.len()))), format!("{:?}", alone.as_ref().map(|x| (x.0.len(), x.1.len()))), "compile_clvm_text on a fresh thread vs in sequence")); }
     }
     None
 }
@@ -1263,7 +1331,7 @@ fn chk_determinism() -> Option<Value> {
 pub fn search(name: &str, seed: u64) -> Value {
     match name {
         "determinism" => {
-            chk_determinism().unwrap_or_else(|| nf(&format!("{} programs (cl21/cl22/cl23; functions, inlines, lets, assign, lambdas with captures, CSE candidates) compile to identical bytes and user-visible symbols when compiled again after other (also failed) compilations and on a second thread", determinism_programs().len())))
+            chk_determinism().unwrap_or_else(|| nf(&format!("{} programs (cl21/cl22/cl23; functions, inlines, lets, assign, lambdas with captures, CSE candidates) compile to identical bytes and user-visible symbols when compiled again after other (also failed) compilations and each on a fresh thread of its own (incl. programs that define a macro / constant / inline of the same name differently)", determinism_programs().len())))
         }
         "tables" | "prims_agree_with_kw" | "builders_select_same_rows_and_are_monotone" | "opcodes_pairwise_distinct" | "names_pairwise_distinct" | "selectors_agree" | "kw_rows_known_to_modern_compiler" | "stepper_constants_agree" => {
             chk_tables().unwrap_or_else(|| nf("run-time tables are mutually inverse per version, monotone, and agree with prims(); every operator of every version's table and every modern primitive is implemented by the evaluator selected for it (one-operator program per name, exhaustive)"))
@@ -1333,6 +1401,9 @@ pub fn search(name: &str, seed: u64) -> Value {
                 (vec!["(defun F2 (A A) A)"], "(F2 1 2)"),
                 (vec!["(defun G2 ((@ A (A B))) (list A B))"], "(G2 (list 1 2))"),
                 (vec!["(defun H2 ((A B) (B C)) (list A B C))"], "(H2 (list 1 2) (list 3 4))"),
+                (vec!["(defun F3 ((A B A) C) (list A B C))"], "(F3 (list 1 2 3) 4)"),
+                (vec!["(defun mk (X) (list X (+ X 1) (+ X 2)))", "(defun-inline G3 ((P Q P)) (- P Q))"], "(G3 (mk 10))"),
+                (vec!["(defun F4 ((A B A) C) (list A B C))"], "(F4 (q 1 2 3) 4)"),
             ];
             for (d, e) in cases.iter() { if let Some(v) = chk_repl(d, e) { return v; } }
             let open_args = ["((1 2))", "((7 8 9))", "(((5 6) 11))"];
@@ -1351,7 +1422,7 @@ pub fn search(name: &str, seed: u64) -> Value {
                 (vec!["(defun pairup (a b) (list a b))", "(defun c (x y) 97)", "(defun both ((@ w (a b))) (pairup w a))"], "(both X)"),
             ];
             for (d, e) in open_cases.iter() { if let Some(v) = chk_repl_open(d, e, &open_args) { return v; } }
-            nf("16 closed REPL sessions and 10 open ones (residual compiled and compared on 3 argument trees, incl. helpers spelled like the operators f / r / c) (arithmetic, recursion, inline, assign destructuring of 3/4/nested patterns, rest args, @ capture, constants, let/let*) reduce to the constant the compiled cl21 program returns")
+            nf("19 closed REPL sessions and 10 open ones (residual compiled and compared on 3 argument trees, incl. helpers spelled like the operators f / r / c) (arithmetic, recursion, inline, assign destructuring of 3/4/nested patterns, rest args, @ capture, constants, let/let*) reduce to the constant the compiled cl21 program returns")
         }
         "classic_meaning" | "symbol_table_for_tree" => {
             // programs without a dialect sigil go through the classic (CLVM-hosted) compiler
@@ -1407,13 +1478,15 @@ pub fn search(name: &str, seed: u64) -> Value {
                 // applying a quoted quoted value: the data under the inner quote is not code
                 ("(mod (X) (a (q 1 (2 (1 . 7) 1) 5) X))", vec!["((5 7))"]),
                 ("(mod (X) (defun k (E) (a (q 1 (2 (1 . 7) 1) (5 1)) E)) (c X (k X)))", vec!["(9)"]),
+                // a constant condition that is a zero-valued, non-empty atom
+                ("(mod (X) (c X (i (q . 0x00) (q . 1) (q . 2))))", vec!["(5)"]),
                 // boolean casts used as values
                 ("(mod (X) (not (not X)))", vec!["(5)", "(0)", "((1 2))"]),
                 ("(mod (X Y) (defun both (A B) (logior (not (not A)) (* 2 (not (not B))))) (both X Y))", vec!["(5 7)", "(0 (1))", "(3 0)"]),
                 ("(mod (X) (defun flag (A) (if (not (not A)) (+ 10 (not (not A))) (not A))) (flag X))", vec!["(9)", "(0)"]),
             ];
             for (b, argss) in progs.iter() { for at in argss { if skipped(&json!({"program": b, "args": at})) { continue; } if let Some(v) = chk_opt_levels(b, at) { return v; } } }
-            nf("20 programs (incl. apply of a doubly quoted value, boolean casts (not (not x)) used as values, quoted data containing (1), repeated expressions under sibling and nested guards that raise when hoisted, let* chains) x argument sets: cl21/cl22/cl23 with -O off and on all agree on the returned value")
+            nf("21 programs (incl. a zero-byte constant condition, apply of a doubly quoted value, boolean casts (not (not x)) used as values, quoted data containing (1), repeated expressions under sibling and nested guards that raise when hoisted, let* chains) x argument sets: cl21/cl22/cl23 with -O off and on all agree on the returned value")
         }
         "bigint_from_bytes" | "bigint_to_bytes_clvm" | "bigint_to_bytes_unsigned" => {
             for len in 0..14usize { for pat in 0..6u8 { for signed in [false, true] {
@@ -1477,9 +1550,10 @@ pub fn search(name: &str, seed: u64) -> Value {
                 n += 1;
                 if let Some(v) = chk_include_case(k, m) { return v; }
             } }
-            nf(&format!("{} (include-file kind, dialect) cases end in a result or an error: include files that are empty, blank, comment-only, a bare atom, (), two forms, a string, a diamond-shaped graph, missing, a directory, self- and mutually-including (recorded findings skipped)", n))
+            nf(&format!("{} (include-file kind, dialect) cases end in a result or an error: include files that are empty, blank, comment-only, a bare atom, (), two forms, a string, a diamond-shaped graph, missing, a directory, self- and mutually-including; embedded files: sexp without / with two forms, junk and odd-length hex, empty bin, missing (recorded findings skipped)", n))
         }
-        "atomic_write" | "atomic_write_file" | "gentle_overwrite" => {
+        "atomic_write" | "atomic_write_file" | "gentle_overwrite" | "compile_clvm" => {
+            if let Some(v) = chk_compile_clvm_files() { return v; }
             let rounds = if thorough() { 40 } else { 6 };
             chk_atomic_write(rounds).unwrap_or_else(|| nf(&format!("{} rounds of 8 concurrent writers x 3 writes and 2 polling readers on one output path: every read is a complete payload, every writer succeeds (stress run, bounded)", rounds)))
         }
